@@ -487,6 +487,11 @@ pub struct Script {
     pub lines: Vec<String>,
     /// permille of an external stop/continue/kill per scheduler step
     pub ext_rate: u32,
+    /// the shell is interactive as well (`-i`): it announces every
+    /// asynchronous job as `[n] pid` on stderr; `n` must be the number the job
+    /// has in the table for as long as it exists
+    #[serde(default)]
+    pub interactive: bool,
 }
 
 fn gen_script(rng: &mut Rng, tier: Tier) -> Script {
@@ -519,7 +524,9 @@ fn gen_script(rng: &mut Rng, tier: Tier) -> Script {
     );
     for _ in 0..ops {
         let j = rng.range(1, njobs);
-        let line = match rng.below(14) {
+        let line = match rng.below(16) {
+            // a job started later: it takes the lowest free number
+            14 | 15 => format!("{{ nap {}; exit 9; }} &", rng.range(1, 9)),
             // a job killed while it is suspended, then brought to the
             // foreground; a job killed while the shell waits for it in `fg`
             12 => format!("kill -s KILL %{j} 2>/dev/null; fg %{j} >/dev/null 2>&1; jobcheck 7{j} fg:$?:{j}"),
@@ -554,6 +561,7 @@ fn gen_script(rng: &mut Rng, tier: Tier) -> Script {
     Script {
         lines,
         ext_rate: *rng.pick(&[0u32, 0, 20, 60]),
+        interactive: rng.below(3) == 0,
     }
 }
 
@@ -622,6 +630,28 @@ fn check_script_run(obs: &Observed) -> Option<Viol> {
             return Some((class.clone(), class, format!("jobcheck in pid {}: {}", e.pid, e.text)));
         }
     }
+    // an interactive shell announces each asynchronous job as `[n] pid`: n is
+    // the job's number in every later view of the table that lists the pid
+    for l in obs.stderr.lines() {
+        let Some(rest) = l.strip_prefix('[') else { continue };
+        let Some((n, pid)) = rest.split_once("] ") else { continue };
+        let (Ok(n), Ok(pid)) = (n.parse::<usize>(), pid.trim().parse::<i32>()) else { continue };
+        for e in obs.history.iter().filter(|e| e.kind == "jobcheck" && e.pid == 2) {
+            // `... jobs=[i]pid:state,[i]pid:state cur=...`
+            let Some(table) = e.text.split("jobs=").nth(1).and_then(|t| t.split(" cur=").next()) else { continue };
+            for item in table.split(',') {
+                let Some((i, rest)) = item.trim_start_matches('[').split_once(']') else { continue };
+                let Some((p, _)) = rest.split_once(':') else { continue };
+                if p.parse::<i32>() == Ok(pid) && i.parse::<usize>().map(|i| i + 1) != Ok(n) {
+                    return Some((
+                        "announced-number".into(),
+                        "announced-number".into(),
+                        format!("the shell announced `[{n}] {pid}` but process {pid} is job number {} in the table: {}", i.parse::<usize>().map_or(0, |i| i + 1), e.text),
+                    ));
+                }
+            }
+        }
+    }
     if let Some(v) = check_liveness(obs) {
         // stopped children that nobody continues are the script's business only
         // if the main shell did not finish
@@ -634,7 +664,7 @@ fn spec_of(s: &Script) -> ScriptSpec {
     ScriptSpec {
         script: s.lines.join("\n") + "\n",
         dash_c: true,
-        options: vec!["-m".into()],
+        options: if s.interactive { vec!["-m".into(), "-i".into()] } else { vec!["-m".into()] },
         ..Default::default()
     }
 }
@@ -722,7 +752,7 @@ impl Prop for C12 {
                     return Some(Failure {
                         class: v.0,
                         key: format!("shell:{}", v.1),
-                        detail: format!("{}\n--- script (sh -m) ---\n{}", v.2, s.lines.join("\n")),
+                        detail: format!("{}\n--- script (sh -m{}) ---\n{}", v.2, if s.interactive { " -i" } else { "" }, s.lines.join("\n")),
                         case: serde_json::to_value(Stored::Script(s.clone())).unwrap(),
                         cfg,
                         decisions: obs.decisions.clone(),
@@ -776,7 +806,7 @@ impl Prop for C12 {
                 v.map(|v| Failure {
                     class: v.0,
                     key: format!("shell:{}", v.1),
-                    detail: format!("{}\n--- script (sh -m) ---\n{}", v.2, s.lines.join("\n")),
+                    detail: format!("{}\n--- script (sh -m{}) ---\n{}", v.2, if s.interactive { " -i" } else { "" }, s.lines.join("\n")),
                     case: case.clone(),
                     cfg: cfg.clone(),
                     decisions: obs.decisions.clone(),
